@@ -12,12 +12,15 @@ from ..util import (has_call, find_calls, assigned_value, const_str, unparse, kw
                     guards_of, call_tail, control_ancestors)
 from .. import mutate as M
 
+TECHNIQUE = 'static analysis: table/id-column agreement of narrowing, grouping-level and strict/non-strict boundary rules, bisect nesting order, reaching definitions (span-1 return), owner agreement of removed-row numbers and viewed table, stage-ordering rule of filter_fin'
+
 EXPLANATION = ("Structural rules over Result._group_p/_global_n/_remove/__init__ and every Result method that narrows a "
                "parameter table: environments/learners/evaluators are narrowed through .where(<own id column>=<the set "
                "unpacked at the matching position of the kept (env,lrn,val) triples>); only groups whose size equals the "
                "number of levels are kept; evaluations shorter than n are dropped (strict <) and longer ones truncated "
                "with index <= n, consistent with the 1-based index written by TransactionResult; _remove nests its "
                "bisects in the order of the interactions index.")
+EXPLANATION += ' R2 also: a right-sized group must cover every level; R6: span 1 returns the values as given; R7: removed-row numbers and the viewed table belong to the same Result; R8: pairing is re-applied after evaluations were dropped for their length.'
 
 RES = "coba/results/core.py"
 OWN = {"environments": "environment_id", "learners": "learner_id", "evaluators": "evaluator_id"}
